@@ -211,8 +211,10 @@ pub fn gen_delim_input(rng: &mut Rng, nfields: usize, delim: u8, allow_invalid: 
         for _ in 0..n {
             let plain: [&[u8]; 3] = [b"a", b"b", b"-"];
             let bad: [&[u8]; 3] = [b"\xff", b"\x80", b"\xc3"];
-            let b: &[u8] = match rng.weighted(&[8, 2, 2, 1, 1, 1, 1, 1, if allow_invalid { 1 } else { 0 }]) {
+            let ctl: [&[u8]; 5] = [b"\x07", b"\x08", b"\x0b", b"\x0c", b"\r"];
+            let b: &[u8] = match rng.weighted(&[8, 2, 2, 1, 1, 1, 1, 1, if allow_invalid { 1 } else { 0 }, 1]) {
                 0 => *rng.pick(&plain),
+                9 => *rng.pick(&ctl),
                 1 => b" ",
                 2 => b"\n",
                 3 => b"'",
